@@ -266,6 +266,58 @@ def rule_arm_results(ctx, p, cfg, rid="T12"):
         r.floor("arm-results", n, 40)
 
 
+
+def rule_group_children(ctx, p, cfg, rid="T13"):
+    """A group's children are the pieces of its argument, one chunk each, in order: `{h(..)}`, `{D(..)}`, `{R(..)}` and `{(..)}`
+    build their list by converting every piece with From<Piece> and collecting - no piece merged into its neighbours,
+    replaced by its own children, or left out.  Read on the loop view, where map/collect and an explicit push loop coincide."""
+    with ctx.rule(rid, "a group's children are its argument's pieces, one chunk each", cfg) as r:
+        from l4sa.panics import _root_local
+        f = p.fn_loops(FROM_PIECE)
+        n = 0
+        for b, i, s_ in f.assigns():
+            rv = s_["rv"]
+            if not (rv["k"] == "agg" and rv.get("adt") == FCHUNK and rv.get("variant") in ("Align", "Highlight", "Debug", "Release")):
+                continue
+            n += 1
+            var = rv["variant"]
+            op = rv["fields"][0]
+            pl = op.get("move") or op.get("copy")
+            root = _root_local(f, pl["l"]) if pl and not pl["p"] else None
+            fills, others = [], []
+            for c in f.calls():
+                nm = (c.callee or "").rsplit("::", 1)[-1]
+                if nm not in ("push", "extend", "append", "insert", "extend_from_slice", "push_front") or not c.args:
+                    continue
+                rp = c.t["args"][0].get("move") or c.t["args"][0].get("copy")
+                rd = [d_ for d_ in f.defs(rp["l"])] if rp and not rp["p"] else []
+                own = rd[0][4]["place"]["l"] if len(rd) == 1 and rd[0][3] == "rv" and rd[0][4]["k"] == "ref" and not rd[0][4]["place"]["p"] else None
+                if own is not None and root is not None and _root_local(f, own) == root:
+                    (fills if nm == "push" else others).append(c)
+            ok = len(fills) == 1 and not others
+            why = "list filled by %d push site(s) and %s" % (len(fills), [c.callee.rsplit("::", 1)[-1] for c in others])
+            if ok:
+                c = fills[0]
+                nx = [x for x in f.calls(NEXT) if f.in_loop(x.block) and f.dominates(x.block, c.block) and f.can_reach(c.block, x.block)]
+                nx = [x for x in nx if all(f.dominates(m.block, x.block) for m in nx)]
+                v = deep_strip(c.arg(1))
+                conv = v[0] == "call" and v[1].rsplit("::", 1)[-1] in ("from", "into") and len(v[2]) == 1 and nx and \
+                    any(x[0] == "as" and x[2] == "Some" and strip(x[1])[0] == "call" and len(strip(x[1])) > 3 and strip(x[1])[3] == nx[0].block for x in walk(v[2][0])) and \
+                    deep_strip(v[2][0])[0] in ("field", "as")
+                src_ok = bool(nx) and any(x[0] == "call" and x[1].rsplit("::", 1)[-1] == "pop" for x in walk(nx[0].arg(0))) and \
+                    not any(x[0] == "call" and x[1].rsplit("::", 1)[-1] in ("filter", "skip", "take", "rev", "flat_map", "flatten", "filter_map", "step_by", "chain", "zip", "skip_while", "take_while") for x in walk(nx[0].arg(0)))
+                every = False
+                if nx:
+                    sw_ = f.term(nx[0].block).get("target")
+                    some_ = SwitchInfo(f, sw_).target_of("Some") if sw_ is not None and f.term(sw_)["k"] == "switch" else None
+                    every = some_ is not None and not q.skipping_paths(f, some_, {c.block}, {nx[0].block})
+                ok = bool(conv and src_ok and every)
+                why = "pushed %s in a loop over %s; every piece pushed: %s" % (show(v, 4), show(nx[0].arg(0), 4) if nx else None, every)
+            r.require(ok, "children-one-chunk-per-piece:%s" % var, fn=f, site=s_.get("at"), detail="FormattedChunk::%s(children): %s" % (var, why),
+                      fail_detail="the children of a %s group are not simply its argument's pieces converted one by one (%s): a piece can be merged away, flattened into its own children (losing its width spec) or dropped" % (var, why))
+        r.floor("group-constructors", n, 4)
+
+
 def run_cfg(ctx, p, cfg, release):
     from rules import c10
     with ctx.rule("T9", "a width argument never drops text the destination has not taken", cfg) as r:
@@ -273,6 +325,7 @@ def run_cfg(ctx, p, cfg, release):
         c10.rule_counts_consumed(r, p)
     rule_right_align_replay(ctx, p, cfg, "T10")
     rule_arm_results(ctx, p, cfg, "T12")
+    rule_group_children(ctx, p, cfg, "T13")
     if "config_parsing" in p.meta.get("features", []):
         rule_configured_pattern(ctx, p, cfg, "T11")
     with ctx.rule("T1", "formatter name table", cfg) as r:
